@@ -38,6 +38,9 @@ else:
     # with its path dependencies pointed there, and a private cargo target directory
     DRIVER_DIR, TARGET_DIR = os.path.join(WORK, "driver_alt"), os.path.join(WORK, "target_alt")
 DRIVER_BIN = os.path.join(TARGET_DIR, "debug", "exprsmt-driver")
+if DRIVER_DIR != DRIVER_SRC and not os.environ.get("EXPRSMT_KEEP_REPLAY_DIR"):
+    # replays of a scratch / mutated tree must not land among the replays of /repo
+    vlib.REPLAY_DIR = os.path.join(WORK, "replays")
 BACKENDS = ["rust", "c", "cpp", "csharp", "go", "moonbit", "d"]
 NO_TOOLCHAIN = {"csharp": "C#", "go": "Go", "moonbit": "MoonBit", "d": "D"}
 
@@ -147,6 +150,8 @@ class Translated:
         self.native = {}        # backend -> dict
         self.solver_s = {}
         self.queries = 0
+        self.fp_notes = []
+        self.fp_queries = 0
 
 
 def translate_all(gen_ok, want_prop):
@@ -195,15 +200,19 @@ def translate_all(gen_ok, want_prop):
 
 
 def solve(tr, tier):
-    qs = [o.query() for o in tr.obls]
+    """Pure bit-vector queries: z3 and cvc5 must agree (z3-new too in the thorough tier).  Queries containing
+    floating-point conversion nodes (QF_BVFP): z3 decides; cvc5 and z3-new are second opinions -- a definite answer that
+    differs makes the obligation inconclusive, a timeout/unknown of the second solver is recorded and z3 alone is accepted."""
+    bv = [o for o in tr.obls if not o.negated_goal().uses_fp()]
+    fp = [o for o in tr.obls if o.negated_goal().uses_fp()]
     solvers = ["z3", "cvc5"] + (["z3-new"] if tier == "thorough" and smt.available("z3-new") else [])
     for s in solvers:
-        res, dt, _raw = smt.run_batch(qs, s, timeout=240 if tier == "quick" else 900)
-        tr.solver_s[s] = dt
-        tr.queries += len(qs)
-        for i, o in enumerate(tr.obls):
+        res, dt, _raw = smt.run_batch([o.query() for o in bv], s, timeout=240 if tier == "quick" else 900)
+        tr.solver_s[s] = tr.solver_s.get(s, 0.0) + dt
+        tr.queries += len(bv)
+        for i, o in enumerate(bv):
             o.verdicts[s] = res[i]
-    for o in tr.obls:
+    for o in bv:
         vs = set(o.verdicts.values())
         if vs == {"unsat"}:
             o.status = "holds"
@@ -212,16 +221,42 @@ def solve(tr, tier):
         else:
             o.status = "inconclusive"
             o.detail = "solver verdicts differ or are not definite: %s" % o.verdicts
+    if fp:
+        fsolvers = ["z3", "cvc5"] + (["z3-new"] if smt.available("z3-new") else [])
+        for s in fsolvers:
+            res, dt, _raw = smt.run_batch([o.query() for o in fp], s, timeout=90 if tier == "quick" else 600)
+            tr.solver_s[s + "(fp)"] = dt
+            tr.queries += len(fp)
+            for i, o in enumerate(fp):
+                o.verdicts[s] = res[i]
+        for o in fp:
+            z = o.verdicts.get("z3")
+            others = {k: v for k, v in o.verdicts.items() if k != "z3"}
+            definite = {v for v in others.values() if v in ("sat", "unsat")}
+            if z not in ("sat", "unsat") and len(definite) == 1:
+                z = definite.pop()          # z3 gave up, the others agree
+                definite = set()
+            if z not in ("sat", "unsat") or (definite and definite != {z}):
+                o.status = "inconclusive"
+                o.detail = "floating-point query: solver verdicts differ or are not definite: %s" % o.verdicts
+            else:
+                o.status = "holds" if z == "unsat" else "sat"
+                weak = sorted(k for k, v in others.items() if v not in ("sat", "unsat"))
+                if weak:
+                    tr.fp_notes.append("%s: decided by %s; no definite answer from %s within the cap" % (
+                        o.name, sorted(k for k, v in o.verdicts.items() if v == z), weak))
+        tr.fp_queries = len(fp)
 
 
 def concrete(o, x):
     env = {"x": x}
-    return {"pre": o.pre.ev(env), "trap": o.trap.ev(env), "emitted": o.emitted.ev(env), "expected": o.expected.ev(env)}
+    return {"pre": o.pre.ev(env), "trap": o.trap.ev(env), "emitted": o.emitted.ev(env), "expected": o.expected.ev(env),
+            "bad": o.bad_term().ev(env)}
 
 
 def fails_at(o, x):
     c = concrete(o, x)
-    return bool(c["pre"]) and (bool(c["trap"]) or c["emitted"] != c["expected"])
+    return bool(c["pre"]) and bool(c["bad"])
 
 
 def exhaustive(tr, tier):
@@ -237,7 +272,7 @@ def exhaustive(tr, tier):
             dom = range(1 << w)
             o.exhaustive = "all 2^%d inputs" % w
         else:
-            base = native.samples(w)
+            base = native.samples(w, floats=o.in_lt.kind == "float")
             if tier == "thorough" and o.item.prop == "C14" and o.item.sense == "lift" and w == 32:
                 n = decide.NBITS[o.item.wit]
                 lows = range(1 << min(n, 16))
@@ -306,11 +341,13 @@ def native_validate(tr, tier, seed):
             for o in tr.obls:
                 if o.item.backend != b or o.kind != "main" or id(o.item) not in info["index"]:
                     continue
+                if o.bad is not None or "#nan" in o.name:
+                    continue          # same expression as the main obligation of the item
                 if b == "rust" and o.note.startswith("debug_assertions="):
                     if (o.note == "debug_assertions=on") != mode:
                         continue
                 i = info["index"][id(o.item)]
-                for x in native.samples(o.decls["x"], seed, 8 if tier == "quick" else 32):
+                for x in native.samples(o.decls["x"], seed, 8 if tier == "quick" else 32, floats=o.in_lt.kind == "float"):
                     c = concrete(o, x)
                     if o.in_lt.kind == "char" and not langs.valid_scalar(tm.const(x, 32)).ev({}):
                         continue
@@ -319,6 +356,8 @@ def native_validate(tr, tier, seed):
                         c = concrete(o, x)
                     if c["trap"] and not (b == "rust" and mode):
                         continue          # undefined behaviour in release mode: nothing to compare
+                    if not c["pre"] and o.emitted.uses_fp():
+                        continue          # NaN through a floating-point conversion: payload is not specified
                     pairs.append((i, x))
                     expect[(i, x)] = (c, o)
             got = native.run_native(exe, pairs)
@@ -366,6 +405,10 @@ def native_replay(tr, o, x):
 def describe_value(lt, v):
     w = lt.w
     s = hexw(v, w)
+    if lt.kind == "float":
+        import struct
+        f = struct.unpack("<f", struct.pack("<I", v))[0] if w == 32 else struct.unpack("<d", struct.pack("<Q", v))[0]
+        return "%s (%r)" % (s, f)
     if lt.kind == "int" and lt.signed:
         s += " (%d)" % tm.to_signed(v, w)
     elif lt.kind == "int":
@@ -378,8 +421,8 @@ def role_of(o):
     if o.kind == "roundtrip":
         return "C04/exprsmt/%s/%s" % (it.backend, o.name.split("/", 2)[2])
     if it.prop == "C14":
-        return "C14/exprsmt/%s/%s/%s" % (it.backend, it.instr, it.ctx)
-    return "C04/exprsmt/%s/%s" % (it.backend, it.instr)
+        return "C14/exprsmt/%s/%s/%s%s" % (it.backend, it.instr, it.ctx, o.role_suffix)
+    return "C04/exprsmt/%s/%s%s" % (it.backend, it.instr, o.role_suffix)
 
 
 def report_sat(tr, o, out, prop_id):
@@ -420,12 +463,21 @@ def report_sat(tr, o, out, prop_id):
         "emitted_result": None if c["trap"] else hexw(c["emitted"], o.emitted.w), "emitted_traps": bool(c["trap"]),
         "canonical_result": hexw(c["expected"], o.expected.w),
         "smt_emitted": o.emitted.smt(), "smt_canonical": o.expected.smt(), "smt_precondition": o.pre.smt(),
+        "obligation": o.name, "failure_class": o.role_suffix.strip("/") or "differs-from-canonical",
         "verdicts": o.verdicts, "native": nat, "replay": replay_how,
         "how_to_replay": "/verif/check %s --replay <this file>" % ("C14" if it.prop == "C14" else "C04B"),
     }
     role = role_of(o)
-    path = vlib.write_replay("C14" if it.prop == "C14" else "C04", role.split("/", 2)[2], payload)
-    if o.kind == "roundtrip":
+    tag = ("_" + o.note.replace("debug_assertions=", "dbg-")) if o.note.startswith("debug_assertions=") else ""
+    path = vlib.write_replay("C14" if it.prop == "C14" else "C04", role.split("/", 2)[2] + tag, payload)
+    if o.role_suffix == "/noncanonical-nonzero-lifts-false":
+        what = ("%s %s (%s wrapper%s): emitted `%s` lifts the non-zero core value %s %s to false; the Component Model lifts every "
+                "non-zero i32 to true (convert_int_to_bool) and the abi.rs doc comment allows only a trap instead. %s"
+                % (it.backend, it.instr, it.ctx, (", " + o.note) if o.note else "", it.expr, it.in_type, hexw(x, w), replay_how))
+    elif "#nan-stays-nan" in o.name:
+        what = ("%s %s (%s wrapper): emitted `%s` turns the NaN %s into the non-NaN %s. %s"
+                % (it.backend, it.instr, it.ctx, it.expr, hexw(x, w), emitted_s, replay_how))
+    elif o.kind == "roundtrip":
         what = ("%s: lifting what was lowered does not give the payload back: %s; payload %s comes back as %s. %s"
                 % (it.backend, o.note, hexw(x, w), emitted_s, replay_how))
     elif it.prop == "C14":
@@ -544,7 +596,9 @@ def c_route(out, prop_id, tier, samples):
             if not lab.startswith(want):
                 continue
             st = res.get((h["name"], lab))
-            _p, instr, ctx = lab.split("|")
+            parts = lab.split("|")
+            _p, instr, ctx = parts[:3]
+            cls = ("/" + parts[3]) if len(parts) > 3 else ""
             if h["kind"] == "variant" and h["ctx"] != "roundtrip":
                 san = res.get((h["name"], "SANITY|discriminant|%s" % h["shape"]))
                 if san != "SUCCESS":
@@ -553,7 +607,7 @@ def c_route(out, prop_id, tier, samples):
             out.obligations += 1
             out.programs += 1
             if prop_id == "C14":
-                role = "C14/exprsmt/c/%s/%s" % (instr, ctx)
+                role = "C14/exprsmt/c/%s/%s%s" % (instr, ctx, cls)
             elif ctx == "roundtrip":
                 role = "C04/exprsmt/c/%s/roundtrip" % instr
             else:
@@ -721,7 +775,11 @@ def run(prop_id, tier, seed):
         "solver_seconds": {k: round(v, 2) for k, v in tr.solver_s.items()},
         "concrete_evaluations": n_eval,
         "translator_validation": nat,
-        "bool_lift_any_nonzero_is_true": info_results,
+        "bool_lift_of_other_nonzero_values": {o.name: ("true or trap (allowed)" if o.status == "holds" else "false for some input: " + o.status)
+                                              for o in tr.obls if o.role_suffix == "/noncanonical-nonzero-lifts-false"},
+        "floating_point_queries": {"count": tr.fp_queries, "notes": tr.fp_notes[:10],
+                                   "encoding": "each conversion node = fresh bit-vector variable constrained via to_fp (QF_BVFP); "
+                                               "bit-exact goal for non-NaN conversion inputs, NaN-in => NaN-out separately"},
         "expressions_per_backend": {b: {"extracted": len([i for i in its if i.prop == prop_id and not i.error]),
                                         "extraction_failed": len([i for i in its if i.prop == prop_id and i.error])}
                                     for b, its in tr.items.items()},
@@ -797,7 +855,7 @@ def replay(prop_id, path):
     for o in tr.obls:
         it = o.item
         if it.backend == b and it.instr == r["instruction"] and it.ctx == r["direction"] and o.kind == r.get("kind", "main") \
-                and o.note == r.get("mode", o.note):
+                and o.note == r.get("mode", o.note) and o.name == r.get("obligation", o.name):
             c = concrete(o, x)
             print("expression now: `%s`; input %s -> emitted %s%s, canonical %s"
                   % (it.expr, r["input"], hexw(c["emitted"], o.emitted.w), " (traps)" if c["trap"] else "",
